@@ -3440,13 +3440,8 @@ where
               // For type expression constraints, we would need to evaluate the type
               // For now, accept any tag value (this could be enhanced later)
             }
-          } else if *actual_tag > 0 {
-            self.add_error(format!(
-              "expected tagged data #6({}), got {:?}",
-              t, self.cbor
-            ));
-            return Ok(());
           }
+          // `#6(T)` without a tag number matches a tagged item with any tag
 
           #[cfg(all(feature = "additional-controls", target_arch = "wasm32"))]
           let mut cv = CBORValidator::new(
@@ -3520,7 +3515,8 @@ where
             1u8 => match constraint {
               Some(c) => {
                 if let Some(literal_val) = c.as_literal() {
-                  if i128::from(*i) == 0i128 - literal_val as i128 {
+                  // the argument n of major type 1 denotes -1 - n (RFC 8949 3.1)
+                  if i128::from(*i) == -1i128 - literal_val as i128 {
                     return Ok(());
                   }
                 }
